@@ -339,6 +339,9 @@ def validate(file: str | None, use_stdin: bool, schema: str | None, fix: bool, v
         # repair() requires schema parameter to apply TIER_REPAIR fixes (enum casefold, type coercion)
         if fix and validation_errors:
             doc, repair_log = repair(doc, validation_errors, fix=True, schema=schema_definition)
+            # I4 (Transform Auditability): report every repair that was applied (stderr keeps stdout canonical-only)
+            for entry in repair_log.repairs:
+                click.echo(f"repair: {entry.rule_id} [{entry.tier.value}] {entry.before!r} -> {entry.after!r}", err=True)
             # Re-validate after repairs
             if schema:
                 schema_def = get_builtin_schema(schema)
